@@ -289,14 +289,14 @@ Section S.
   (* a fresh session (empty cache) finds an initialised job by anything that resolves to its id, and
      reads back exactly the state point stored in the file *)
   Lemma open_id_finds : forall w si x i sp,
-    alookup x (s_cache (getS w si)) = None ->
+    alookup x (s_cache (getS w si)) = None -> alookup i (s_cache (getS w si)) = None ->
     resolve (w_fs w) (wsp (getS w si)) x = inl i ->
     valid_job frepr (w_fs w) (wsp (getS w si)) i sp ->
     exists w1 h, open_id w si x = (w1, inl h) /\ h_id (getH w1 h) = i /\
                  snd (sp_read frepr w1 h) = inl sp /\ w_fs w1 = w_fs w.
   Proof.
-    intros w si x i sp Hc Hr [Hdir [c [Hf [Hj Hh]]]].
-    unfold open_id. rewrite Hc, Hr. eexists _, _. split; [reflexivity|].
+    intros w si x i sp Hc Hci Hr [Hdir [c [Hf [Hj Hh]]]].
+    unfold open_id. rewrite Hc, Hr, Hci. eexists _, _. split; [reflexivity|].
     assert (Hh' : getH (add_H w (mkH si i None None true)) (length (w_hs w)) = mkH si i None None true).
     { unfold getH, add_H. simpl. apply nth_app_new. }
     split; [rewrite Hh'; reflexivity|]. split; [|reflexivity].
